@@ -352,6 +352,15 @@ def call(ex, node, name, st):
         for k in node.keywords:
             if k.arg == "initial_zero":
                 iz = bool(k.value.value)
+        if isinstance(v, TupV) and any(isinstance(x, NanV) for x in v.items):
+            # a fixed-length layout with unknown (NaN) sizes: every running total from the first NaN on is NaN
+            out, acc, bad = ([I(0)] if iz else []), z3.IntVal(0), False
+            for x in v.items:
+                bad = bad or isinstance(x, NanV)
+                if not bad:
+                    acc = acc + S.as_int(ex.need_int(x, st, node))
+                out.append(NanV() if bad else I(acc))
+            return TupV(out, "tuple")
         t = ex.to_seq(v)
         if iz:
             return SeqV(S.f_concat(S.f_append(S.c_empty, z3.IntVal(0)), S.f_cum(t)), "tuple")
